@@ -322,6 +322,13 @@ func c11UAView(body []byte) []string {
 		if tt == html.ErrorToken {
 			return out
 		}
+		if tt == html.TextToken {
+			// character data that is not white space: reported as the pseudo tag `#text` (an auto-submitting form has none)
+			if txt := bytes.TrimSpace(z.Text()); len(txt) > 0 {
+				out = append(out, "T:#text", "A:data="+hex.EncodeToString(txt))
+			}
+			continue
+		}
 		if tt != html.StartTagToken && tt != html.SelfClosingTagToken {
 			continue
 		}
@@ -397,7 +404,7 @@ func c11Stream(r *hx.Rand, tier string, n int, w *bufio.Writer) map[string]int {
 	srcBeds := []*c11SrcBed{c11NewSrcBed("provider", true), c11NewSrcBed("legacy", true), c11NewSrcBed("provider", false), c11NewSrcBed("legacy", false)}
 
 	for caseNo := 0; caseNo < n; caseNo++ {
-		kind := hx.Pick(r, "url", "url", "url", "form", "form", "code", "code", "token", "error", "error", "tryerror", "flow", "src", "src", "src")
+		kind := hx.Pick(r, "url", "url", "url", "form", "form", "code", "code", "token", "error", "error", "tryerror", "flow", "src", "src", "src", "seq", "par")
 		mode := modes[r.Intn(len(modes))]
 		rtype := rtypes[r.Intn(len(rtypes))]
 		u := c11URIs[r.Intn(len(c11URIs))]
@@ -424,6 +431,12 @@ func c11Stream(r *hx.Rand, tier string, n int, w *bufio.Writer) map[string]int {
 		var srcFields func(l *hx.Line)
 		req := httptest.NewRequest(http.MethodGet, "/authorize/callback?id=x", nil)
 		switch kind {
+		case "seq":
+			c11SeqRun(r, tier, caseNo, w, stats, bed.Provider, web)
+			continue
+		case "par":
+			c11ParRun(r, tier, caseNo, w, stats, bed)
+			continue
 		case "src":
 			sr, ok := c11SrcCase(r, srcBeds, tier, stats)
 			if !ok {
